@@ -243,6 +243,8 @@ class FakeConn(object):
         v = self.mem.get(address)
         if v is not None:
             return v[:length_bytes].ljust(length_bytes, b"\0")
+        if length_bytes == 1 and self.state.get("fault") != "notwait":
+            return b"\x05"                      # a core's cpu_state: AppState.wait (the application loaded)
         if self.state.get("fault") == "iobuf" and length_bytes == 4:
             return struct.pack("<I", 0x1000)    # non-zero IOBUF pointer: get_iobuf_bytes follows it once
         return bytes(length_bytes)
@@ -341,7 +343,21 @@ class World(object):
 _WRAPPED = {}      # id(one-shot iterator) -> the protocol value it was made from
 _KEEP = []         # keeps those iterators alive (ids must stay unique during a run)
 ONE_SHOT = ("iter", "gen", "map")
-KINDS = ("list", "tuple", "set", "range") + ONE_SHOT
+REITERABLE = ("list", "tuple", "set", "frozenset", "range", "keys")
+KINDS = REITERABLE + ONE_SHOT
+INT_KINDS = ("enum", "np64")      # (32-bit numpy ints overflow in `app_id << 24`: numpy semantics, not rig's)
+_ENUMS = {}
+
+
+def int_of_kind(n, kind):
+    """the int `n` as an IntEnum member / numpy integer (both are legal wherever rig takes an int)"""
+    if kind == "enum":
+        if n not in _ENUMS:
+            import enum
+            _ENUMS[n] = enum.IntEnum("K%s" % str(n).replace("-", "m"), {"member": n})
+        return _ENUMS[n].member
+    import numpy
+    return numpy.int64(n) if kind == "np64" else numpy.int32(n)
 
 
 def wrap(kind, items, canon):
@@ -353,6 +369,12 @@ def wrap(kind, items, canon):
         return tuple(items)
     if kind == "set":
         return set(items)
+    if kind == "frozenset":
+        return frozenset(items)
+    if kind == "keys":
+        return dict.fromkeys(items).keys()
+    if kind in ("bytearray", "memoryview"):
+        return bytearray(items) if kind == "bytearray" else memoryview(bytes(items))
     if kind == "range":
         return range(items[0], items[-1] + 1)
     o = iter(items) if kind == "iter" else (t for t in items) if kind == "gen" else map(lambda t: t, items)
@@ -364,7 +386,7 @@ def wrap(kind, items, canon):
 def ints_token(items, kind, rng=None):
     """protocol value for a collection of ints of the given kind (the model sees the iteration order)"""
     items = list(items)
-    if kind == "set":
+    if kind in ("set", "frozenset"):
         items = list(set(items))
     if kind == "range":
         items = list(range(min(items), min(items) + len(set(items))))
@@ -378,8 +400,13 @@ def to_val(v):
         return {"req": 1}
     if id(v) in _WRAPPED:
         return _WRAPPED[id(v)]
-    if isinstance(v, (set, frozenset, range)) and v and all(isinstance(t, int) and not isinstance(t, bool) for t in v):
+    if isinstance(v, (set, frozenset, range, type({}.keys()))) and v and \
+            all(isinstance(t, int) and not isinstance(t, bool) for t in v):
         return {"l": [int(t) for t in v]}
+    if isinstance(v, (bytearray, memoryview)):
+        return {"o": repr(bytes(v))}
+    if not isinstance(v, (int, bool)) and type(v).__module__ == "numpy" and hasattr(v, "__index__"):
+        return int(v)
     if v is None or isinstance(v, bool):
         return v
     if isinstance(v, int):
@@ -404,8 +431,10 @@ def from_val(v, objs=None):
             return Required
         if "l" in v:
             return wrap(v.get("k") or ("tuple" if v.get("t") else "list"), v["l"], {"l": list(v["l"])})
+        if "n" in v:
+            return int_of_kind(v["n"], v.get("k"))
         t = v["o"]
-        if v.get("k") in ONE_SHOT:
+        if v.get("k") in ONE_SHOT + ("bytearray", "memoryview"):
             return wrap(v["k"], ast.literal_eval(t), {"o": t})
         if t == "<aplx>":
             return aplx_file()
@@ -430,7 +459,7 @@ _OBJS = {}
 
 
 def obj_token(o):
-    if isinstance(o, dict) and ("l" in o or "o" in o):
+    if isinstance(o, dict) and ("l" in o or "o" in o or "n" in o):
         return o                     # already a protocol value (a collection of ints, a one-shot iterable)
     return to_val(o)
 
@@ -442,6 +471,12 @@ def aplx_file():
         f.close()
         _APLX[0] = f.name
     return _APLX[0]
+
+
+def some_bytes(rng):
+    """`data` as bytes, bytearray, memoryview"""
+    r = rng.random()
+    return b"abcd" if r < 0.5 else {"o": "b'abcd'", "k": "bytearray" if r < 0.75 else "memoryview"}
 
 
 def some_leds(rng):
@@ -473,7 +508,8 @@ def method_args(cls, name, rng):
     from rig.machine_control.consts import SCPCommands
     if cls == "BMPController":
         t = dict(send_scp=({}, [SCPCommands.sver]), get_software_version=({}, []),
-                 set_power=(dict(state=rng.random() < 0.5, delay=0.0, post_power_on_delay=0.0), []),
+                 set_power=(dict(state=rng.random() < 0.5, delay=rng.choice([0.0, 0.05]),
+                                 post_power_on_delay=rng.choice([0.0, 0.5])), []),
                  set_led=(dict(led=some_leds(rng), action=rng.choice([None, True, False])), []),
                  read_fpga_reg=(dict(fpga_num=rng.randrange(3), addr=4 * rng.randrange(64)), []),
                  write_fpga_reg=(dict(fpga_num=rng.randrange(3), addr=4 * rng.randrange(64), value=rng.randrange(1 << 32)), []),
@@ -483,10 +519,12 @@ def method_args(cls, name, rng):
     tx, ty = rng.randrange(2, 9), rng.randrange(2, 9)
     aligned = rng.random() < 0.5
     t = dict(
-        send_scp=({}, [SCPCommands.led, 1]), discover_connections=({}, []), application=({}, []),
+        send_scp=(dict(__extra_kw__=rng.choice([{}, {"expected_args": 0}, {"arg2": 5, "timeout": 0.25}])),
+                  rng.choice([[SCPCommands.led, 1], [SCPCommands.ver if hasattr(SCPCommands, "ver") else SCPCommands.sver]])),
+        discover_connections=({}, []), application=({}, []),
         get_software_version=({}, []), get_ip_address=({}, []),
-        write=(dict(address=0x100, data=b"abcd"), []), read=(dict(address=0x100, length_bytes=4), []),
-        write_across_link=(dict(address=0x100, data=b"abcd", link=Links.north), []),
+        write=(dict(address=0x100, data=some_bytes(rng)), []), read=(dict(address=0x100, length_bytes=4), []),
+        write_across_link=(dict(address=0x100, data=some_bytes(rng), link=rng.choice(list(Links))), []),
         read_across_link=(dict(address=0x100, length_bytes=4, link=Links.north), []),
         read_struct_field=(dict(struct_name="sv", field_name="p2p_dims"), []),
         write_struct_field=(dict(struct_name="sv", field_name="p2p_dims", values=5), []),
@@ -500,10 +538,13 @@ def method_args(cls, name, rng):
         sdram_alloc_as_filelike=(dict(size=8, tag=rng.randrange(2), clear=rng.random() < 0.5), []),
         sdram_free=(dict(ptr=0x100), []),
         flood_fill_aplx=(dict(wait=rng.random() < 0.5), [aplx_file(), {(tx, ty): {3}}]),
-        load_application=(dict(wait=rng.random() < 0.5, app_start_delay=0.0, n_tries=1), [aplx_file(), {(tx, ty): {3}}]),
+        load_application=(dict(wait=rng.random() < 0.5, app_start_delay=rng.choice([0.0, 0.01]), n_tries=rng.choice([0, 1, 2]),
+                               __extra_kw__=rng.choice([{}, {}, {"use_count": False}, {"use_count": True}])),
+                          [aplx_file(), {(tx, ty): {3}}]),
         send_signal=(dict(signal=rng.choice(["stop", "start", "sync0"])), []),
         count_cores_in_state=(dict(state=some_states(rng)), []),
-        wait_for_cores_to_reach_state=(dict(state=some_states(rng), count=1, poll_interval=0.0, timeout=None), []),
+        wait_for_cores_to_reach_state=(dict(state=some_states(rng), count=rng.choice([0, 1, 1]),
+                                            poll_interval=rng.choice([0.0, 0.5]), timeout=rng.choice([None, 2.0])), []),
         load_routing_tables=(dict(routing_tables={(tx, ty): rte}), []),
         load_routing_table_entries=(dict(entries=rte), []),
         get_routing_table_entries=({}, []), clear_routing_table_entries=({}, []), get_p2p_routing_table=({}, []),
@@ -944,10 +985,14 @@ class Gen(object):
     def ctx_value(self, name):
         """contextual values pairwise distinct within a program (and away from 0 / 255 / 66)"""
         rng = self.rng
+        if self.cls == "BMPController":
+            # coordinates of the boards the controller has connections for, and a few others
+            i = BMP_CTX.index(name)
+            have = sorted({k[i] for k in self.cfg.get("bmp_conns", []) if len(k) > i})
+            return rng.choice(have + have + list(range(2 if i < 2 else 3)))
+        if rng.random() < 0.08:
+            return 0        # falsy: chip (0, *), core 0, application 0 are as good as any other
         for _ in range(200):
-            if self.cls == "BMPController":
-                v = rng.randrange(2) if name in ("cabinet", "frame") else rng.randrange(3)
-                return v
             if name == "x":
                 v = rng.randrange((self.cfg.get("dims") or [24, 24])[0])
             elif name == "y":
@@ -980,7 +1025,7 @@ class Gen(object):
             if n in cnames:
                 true[n] = (ctxvals or {}).get(n, None)
                 if true[n] is None:
-                    true[n] = self.ctx_value(n)
+                    true[n] = self.kinded(n, self.ctx_value(n))
         if self.cls == "BMPController" and name in ("set_power", "set_led") and "board" in true \
                 and not (ctxvals and "board" in ctxvals) and rng.random() < 0.45:
             # boards given as an iterable (list or tuple) of distinct board numbers
@@ -1038,13 +1083,25 @@ class Gen(object):
                     need_ctx[n] = true[n]
             elif n in given and (style != "mixed" or rng.random() < 0.7):
                 kw.append([n, obj_token(given[n])])
+        if sig["hasKeywords"]:
+            kw += [[k, obj_token(v)] for k, v in sorted(given.get("__extra_kw__", {}).items())]
         if style == "mixed":
             rng.shuffle(kw)
         st = {"s": "call", "id": self.fresh_id(), "m": name, "pos": pos, "kw": kw, "caught": caught}
         return st, need_ctx
 
+    def kinded(self, name, v):
+        """now and then the int as bool / IntEnum member / numpy integer"""
+        rng = self.rng
+        if not isinstance(v, int) or isinstance(v, bool) or rng.random() > 0.12:
+            return v
+        if v in (0, 1) and rng.random() < 0.5:
+            return bool(v)
+        kinds = ("enum",) if (self.cls, name) == ("BMPController", "board") else INT_KINDS
+        return {"n": v, "k": rng.choice(kinds)}        # (set_led / set_power: `isinstance(board, int)`)
+
     def decoys(self, names):
-        return [[n, self.ctx_value(n)] for n in names]
+        return [[n, self.kinded(n, self.ctx_value(n))] for n in names]
 
 
 def random_cfg(rng, cls):
@@ -1055,13 +1112,20 @@ def random_cfg(rng, cls):
             k.append([0, 0])
         if not k:
             k = [[0, 0]]
+        if rng.random() < 0.25:
+            # other cabinets / frames / boards (a frame holds 24 boards)
+            co, fo, bmap = rng.choice([0, 3, 255]), rng.choice([0, 7, 255]), rng.choice([[0, 1, 2], [0, 5, 23], [23, 11, 0]])
+            k = [[key[0] + co, key[1] + fo] + [bmap[key[2]] for _ in key[2:]] for key in k]
         return {"bmp_conns": k}
     r = rng.random()
     if r < 0.25:
         return {"dims": None, "root": None, "conns": []}
     w = rng.choice([12, 24, 24, 36, 8, 16, 20])
     h = rng.choice([12, 24, 24, 36, 8, 16, 20])
-    root = [rng.choice([0, 0, 4, 8, 3]), rng.choice([0, 0, 8, 4, 5])]
+    if rng.random() < 0.06:
+        # the extremes: one chip wide / high, the largest machine the 8-bit coordinates allow
+        w, h = rng.choice([(1, 240), (240, 1), (2, 255), (256, 256), (255, 12), (1, 1)])
+    root = [rng.choice([0, 0, 4, 8, 3]) % w, rng.choice([0, 0, 8, 4, 5]) % h]
     if r < 0.32:
         return {"dims": [w, h], "root": None, "conns": [[0, 0]]}
     eth = []
